@@ -98,7 +98,7 @@ def norm(op, can, da):
 def abs_tol(op, da):
     if op in ("uss_x", "uss_y"):
         return 1e-9 * float(da.spec.uss().max())
-    if op == "momd1":
+    if op in ("momd1", "crsd"):  # signed sums that cancel: compared against the size of their terms
         return 1e-9 * float(da.spec.oned().max())
     return 0.0
 
